@@ -1436,7 +1436,9 @@ class Template:
             keys = ctx.globals_keys - self.globals.keys()
 
             if keys:
-                return self.make_module({k: ctx.parent[k] for k in keys})
+                return self.make_module(
+                    {k: ctx.parent[k] for k in keys if k in ctx.parent}
+                )
 
         if self._module is None:
             self._module = self.make_module()
@@ -1450,7 +1452,9 @@ class Template:
             keys = ctx.globals_keys - self.globals.keys()
 
             if keys:
-                return await self.make_module_async({k: ctx.parent[k] for k in keys})
+                return await self.make_module_async(
+                    {k: ctx.parent[k] for k in keys if k in ctx.parent}
+                )
 
         if self._module is None:
             self._module = await self.make_module_async()
